@@ -18,6 +18,7 @@ extern "C" void __gcov_dump(void);  // coverage build only (check/coverage.py)
 #include <unistd.h>
 
 #include <algorithm>
+#include <atomic>
 #include <cinttypes>
 #include <cmath>
 #include <cstdint>
@@ -167,6 +168,45 @@ run_case(const Case &c)
     const auto base = seq(g, c.pseed);
     const Gen g2{mn, mx, alpha};
     std::printf("ZPURE equal_params %d\n", seq(g2, c.pseed) == base ? 1 : 0);
+    if (n >= 2 && n <= 300000 && c.pthreads > 0) {
+      // generators constructed while ANOTHER thread constructs a generator with other parameters (same class and integer
+      // type) equal the ones constructed alone: the constructors share no scratch state
+      bool same = true;
+      const int rounds = n > 20000 ? 6 : 24;
+      for (int r = 0; r < rounds && same; ++r) {
+        std::atomic<int> go{0};
+        const double alpha2 = alpha + 0.37;
+        const Int mn2 = mn;
+        const Int mx2 = (n > 3) ? static_cast<Int>(mx - static_cast<Int>(n / 3)) : mx;
+        std::vector<double> got1, got2;
+        auto table = [&](const Gen &x, Int lo, Int hi) {
+          std::vector<double> t;
+          const uint64_t m = static_cast<uint64_t>(static_cast<__int128>(hi) - static_cast<__int128>(lo)) + 1;
+          for (uint64_t k = 0; k < m; k += (m > 4096 ? m / 1024 : 1)) t.push_back(x.GetCDF(static_cast<Int>(k)));
+          t.push_back(x.GetCDF(static_cast<Int>(m - 1)));
+          return t;
+        };
+        std::thread t1([&] {
+          ++go;
+          while (go.load() < 2) {
+          }
+          const Gen x{mn, mx, alpha};
+          got1 = table(x, mn, mx);
+        });
+        std::thread t2([&] {
+          ++go;
+          while (go.load() < 2) {
+          }
+          const Gen y{mn2, mx2, alpha2};
+          got2 = table(y, mn2, mx2);
+        });
+        t1.join();
+        t2.join();
+        const Gen y0{mn2, mx2, alpha2};
+        same = same && got1 == table(g, mn, mx) && got2 == table(y0, mn2, mx2);
+      }
+      std::printf("ZPURE concurrent_construction %d\n", same ? 1 : 0);
+    }
     Gen copy{g};
     std::printf("ZPURE copy %d\n", seq(copy, c.pseed) == base ? 1 : 0);
     Gen assigned{};
